@@ -46,6 +46,15 @@ def _with_all_classes(rng, K, n):
 def gen_measure_case(rng, kind, max_len):
     K = rng.randint(1, 6)
     n = rng.randint(K, max(K, max_len))
+    if kind == "many_classes":
+        # many classes; run_impl hands such vectors over as narrow unsigned integer arrays (uint8), as label files
+        # read from compact datasets are
+        K = rng.randint(17, 24)
+        n = rng.randint(K, K + 40)
+        labels = _with_all_classes(rng, K, n)
+        r = rng.random()
+        preds = list(labels) if r < 0.3 else [l if rng.random() < 0.7 else rng.randrange(K) for l in labels]
+        return labels, preds
     if kind == "single_class":
         K = 1
         n = rng.randint(1, max_len)
@@ -95,7 +104,7 @@ def gen_measure_case(rng, kind, max_len):
     return labels, preds
 
 
-IN_DOMAIN_KINDS = ["random", "random", "random", "mostly_correct", "all_correct", "all_wrong", "swap2", "one_error",
+IN_DOMAIN_KINDS = ["many_classes", "random", "random", "random", "mostly_correct", "all_correct", "all_wrong", "swap2", "one_error",
                    "single_class", "pure_groups", "merged_groups"]
 OOD_KINDS = ["ood_missing", "ood_pred"]
 
@@ -127,8 +136,9 @@ def _call(fn, *a):
 def run_impl(labels, preds):
     import numpy as np
     import opfython.math.general as g
-    l = np.asarray(labels, dtype=int)
-    p = np.asarray(preds, dtype=int)
+    dt = np.uint8 if (len(labels) and 16 <= max(labels) < 100 and min(list(labels) + list(preds)) >= 0) else int
+    l = np.asarray(labels, dtype=dt)
+    p = np.asarray(preds, dtype=dt)
     return dict(cm=_call(g.confusion_matrix, l, p), acc=_call(g.opf_accuracy, l, p),
                 pl=_call(g.opf_accuracy_per_label, l, p), pur=_call(g.purity, l, p))
 
